@@ -36,7 +36,8 @@ ASSUMPTIONS = [
     "any false value returned by a transform (None, False, 0, '') means 'skip this feature'",
 ]
 
-FORMS = ("path", "gz", "string", "list", "generator", "DataIterator", "DataIterator+kw", "FeatureDB", "path_crlf", "gz_crlf", "string_crlf", "path_oddname")
+FORMS = ("path", "gz", "string", "list", "generator", "DataIterator", "DataIterator+kw", "FeatureDB", "path_crlf", "gz_crlf", "string_crlf", "path_oddname",
+         "path_cr")          # bare CR line ends (universal newlines apply to plain files)
 TRANSFORMS = ("none", "modify", "drop-odd")
 
 
@@ -60,6 +61,9 @@ def shards(tier):
         for form in ("path", "list", "generator", "counted"):
             if a[0] != "gff3mixed":
                 out.append(("inspect", a, form))
+        if a == ("gff3", 4):
+            for form in ("path", "list"):
+                out.append(("inspect", ("gff3bare", 3), form))
         if a in (("gff3", 4), ("gtf", 3), ("gff3", 12)):
             for form in ("path", "gz", "string", "list", "generator"):
                 out.append(("update", a, form))
@@ -80,6 +84,9 @@ def texts_of(kind, n):
                 "c1\ts\tmRNA\t15\t25\t.\t+\t.\tID=d1;tag=t1,u1;Name=b",
                 "c1\ts\tregion\t.\t.\t.\t+\t.\tID=d2;tag=t2,u2;Name=c",
                 "c1\ts\texon\t25\t35\t.\t+\t.\tID=d3;tag=t3,u3;Name=d"][:n]
+    if kind == "gff3bare":
+        # features without any attribute (inspect part only)
+        return ["c1\ts\tgene\t10\t20\t.\t+\t.\t", "c1\ts\tmRNA\t15\t25\t.\t+\t.\t", "c2\ts\tgene\t20\t30\t.\t-\t.\t"][:n]
     if kind == "gff3":
         d = G.ALL[0]
         return files.render(d, files.file_lines(d, "parent" if n >= 3 else "same", n))
@@ -152,6 +159,11 @@ def build_input(form, kind, texts, wd, cl, tf, tag):
     if form.endswith("_crlf"):
         text = text.replace("\n", "\r\n")         # DOS line ends
         form = form[:-5]
+    elif form == "path_cr":
+        p = os.path.join(wd, "in%s_cr.gff" % tag)
+        with open(p, "w", newline="") as fh:
+            fh.write(text.replace("\n", "\r"))     # old Mac line ends
+        return p, dict(checklines=cl, **({"transform": tf} if tf is not None else {})), None
     src = None
     kw = dict(checklines=cl)
     if tf is not None and form != "DataIterator+kw":
